@@ -334,6 +334,19 @@ def _front(ctx: Ctx, c: Collector) -> None:
             sel_ok = ret_ok = False
         if not sel_ok:
             pr.append("the helper is not selected by the evenly flag")
+        # the helpers shuffle the candidates and remove saturated ones: they get a list of their own, always
+        dparam = T.var(fi.params[2]) if len(fi.params) > 2 else None
+        for h in (ev[0], rn[0]):
+            a = h.term[2][2] if len(h.term[2]) > 2 else None
+            if a is None or dparam is None:
+                continue
+            av = unalias(a, s, fi)
+            binds = [b for b in s.of_kind("bind") if b.term[1] == dparam]
+            fresh = av == call(T.glob("list"), dparam) or (av == dparam and len(binds) == 1 and not binds[0].guards and T.strip(binds[0].term[2]) == call(T.glob("list"), dparam))
+            if not fresh:
+                pr.append("the candidate list handed to the helpers is not always a fresh list(dest_set): they shuffle it and remove saturated destinations, so the caller's own collection is modified "
+                          "(and sources are skipped when the same list is passed as src_set and dest_set)")
+                break
         if dict(rn[0].term[3]).get("max_connects") != T.var("max_connects"):
             pr.append("max_connects is not passed to the random helper")
         if not ret_ok:
